@@ -43,10 +43,11 @@ THEOREMS = {
     "C04_refuses_negative_nan_interaction": "interaction model with guard_neg: a negative or NaN observation among the rows => Err",
     "C04_refuses_negative_interaction_refuted": "AS CODED the interaction model accepts a negative observation (witness)",
     "C04_refuses_nan_interaction_refuted": "AS CODED the interaction model accepts a NaN observation (witness)",
+    "C04_screen_noninterference": "over the shared Screen model: constructor arguments that differ only in masked observation bit patterns are accepted alike and give equal training data (both models) and equal downstream projection",
     "C04_downstream_frame": "the projection handed to distance / scoring / selection is equal for screens that differ only in masked values, hence so is every function of it; the training input is such a function",
 }
 ASSUMPTIONS = [
-    "rows are at id level (Screen.sample_ids / treatment_ids / plate_ids of the real constructor); the names->ids encoding is C01's model",
+    "rows are at id level (Screen.sample_ids / treatment_ids / plate_ids of the real constructor); the names->ids encoding is the shared Screen model (C01), run here on every rel/cli case and compared with the real screen's ids, mask and exact observation values",
     "the float32 cast is an abstract function in the theorems; in the correspondence it is the table of numpy's own casts of the case's values",
     "logit on (0,1) is an oracle (libm on the nearest double); the training targets are float32 in the implementation and compared with tolerance 2e-5, means of single-agent observations with 1e-12; ids, counts, orders and error/no-error exactly",
     "downstream steps are compared on the implementation side only (two runs, bit-for-bit) plus a tripwire that counts reads of Screen.observations / ScreenSubset.observations while they run; their numeric content is C05-C07's business",
@@ -635,9 +636,10 @@ def run(desc):
         ia, ib = train_result(model, sa, 1), train_result(model, sb, 1)
         iw = train_result(model, sa, 0)
         wire = [req(model, 1, ra, arity, flags), req(model, 1, rb, arity, flags), req(model, 0, ra, arity, flags), [2, ra, rb]]
+        wire.append([3, screenlib.wire_mk_args(concrete(sd, True))])
         if model == INT:
             wire.append(req(model, 1, ra, arity, repaired))
-        impl = [ia, ib, iw, view_of(sa)]
+        impl = [ia, ib, iw, view_of(sa), [r[:4] + r[5:] for r in rb]]
         pred = None
         # 1. non-interference: the two runs, bit for bit
         if train_bits(model, ia) != train_bits(model, ib):
@@ -687,8 +689,11 @@ def run(desc):
                 return "model: downstream_input differs between the two screens"
             if m[3][1] != i[3]:
                 return "downstream_input: model %s impl %s" % (common.short(m[3][1]), common.short(i[3]))
+            if not common.is_ok(m[4]) or m[4][1] != i[4]:
+                return "rows of the shared Screen model (mk_screen + bit decoding) differ from the real screen B: model %s impl %s" % (
+                    common.short(m[4]), common.short(i[4]))
             if model == INT and pred is None:
-                d = cmp_answer(model, m[4], i[0], "train A (repaired variant, property predicate holds)")
+                d = cmp_answer(model, m[5], i[0], "train A (repaired variant, property predicate holds)")
                 if d:
                     return d
             return None
